@@ -171,6 +171,10 @@ theorem sqrtRatioFp_ok {u v : Fp} (h : (sqrtRatioFp u v).1 = 1) : (sqrtRatioFp u
   have := Bridge.sqrtRatioM1_ok (c2f_eq_one_iff.1 h)
   simp only [hu, hv] at this; exact this
 
+/-! `sqrtCand` contains the exponent `2^252 - 3`: seal both definitions so that no later unifier / `whnf`
+call tries to evaluate it (unfold explicitly with `simp only [sqrtRatioFp, sqrtCand]` / `unfold`). -/
+attribute [irreducible] sqrtCand sqrtRatioFp
+
 /-- info: 'Dalek.Proofs.sqrt_ratio_i_sh_eq' depends on axioms: [propext, Classical.choice, Quot.sound] -/
 #guard_msgs in #print axioms sqrt_ratio_i_sh_eq
 
